@@ -348,4 +348,34 @@ GenExclShapes ==
   LET pr(role, key) == [key |-> "c11x", role |-> role, clause |-> "C11.excl.rest_same", prop |-> "C11", exclkey |-> key]
       mk(tag, cfg, role, key) == [Shape("c11x." \o tag, AddrDesc, cfg) EXCEPT !.group = "c11x", !.pair = pr(role, key)]
   IN <<mk("0base", BaseCfg, "base", "")>> \o [k \in DOMAIN ExclKeys |-> mk("1x" \o ToString(k), AddrCfg("exclude", ExclKeys[k]), "variant", ExclKeys[k])]
+
+---------------------------------------------------------------------------
+\* C19: one message per proto scalar type with the scalar in every position: singular, list element, map
+\* value, oneof branch; plus cast types and the temporal types
+FourOf(t) == Msg("Root", <<Fld("Fa", 1, t), Rep(Fld("Fb", 2, t)), MapOf(Fld("Fc", 3, t)), InOneof(Fld("Fd", 4, t), "Grp")>>, <<"Grp">>)
+BoundaryShapes ==
+  [i \in DOMAIN ScalarTys |-> With("c19." \o ScalarTys[i], <<FourOf(ScalarTys[i])>>, BaseCfg)]
+  \o << With("c19.enum", <<FourOf("enum")>>, BaseCfg),
+        With("c19.cast.string", <<Msg("Root", <<Cast(Fld("Fa", 1, "string"), "CastStr"), Rep(Cast(Fld("Fb", 2, "string"), "CastStr"))>>, <<>>)>>, BaseCfg),
+        With("c19.cast.uint64", <<Msg("Root", <<Cast(Fld("Fa", 1, "uint64"), "CastU"), Rep(Cast(Fld("Fb", 2, "uint64"), "CastU"))>>, <<>>)>>, BaseCfg),
+        With("c19.cast.float", <<Msg("Root", <<Cast(Fld("Fa", 1, "float"), "CastF")>>, <<>>)>>, BaseCfg),
+        With("c19.time", <<Msg("Root", <<NonNull(StdTime("Fa", 1)), StdTime("Fb", 2), Rep(StdTime("Fc", 3))>>, <<>>)>>, BaseCfg),
+        With("c19.duration", <<Msg("Root", <<NonNull(StdDur("Fa", 1)), StdDur("Fb", 2), Cast(Fld("Fc", 3, "int64"), "time.Duration"),
+                                           Rep(Cast(Fld("Fd", 4, "int64"), "time.Duration")), Cast(Fld("Fe", 5, "int64"), "Duration")>>, <<>>)>>,
+             [BaseCfg EXCEPT !.durationcustom = "Duration"]) >>
+
+---------------------------------------------------------------------------
+\* C17: custom types, by proto option and by configuration, singular and repeated, with / without suffix
+Custom(f, t) == [f EXCEPT !.custom = t]
+CustCfg(ct, sf) == [BaseCfg EXCEPT !.customtypes = ct, !.suffixes = sf]
+CustomShapes == <<
+  With("u.opt.one", <<Msg("Root", <<Fld("Str", 1, "string"), NonNull(Custom(Commented(Fld("Cust", 2, "string"), Com2), "CustT"))>>, <<>>)>>, BaseCfg),
+  With("u.opt.rep", <<Msg("Root", <<Rep(Custom(Fld("Custs", 1, "bool"), "CustB")), Fld("Num", 2, "int32")>>, <<>>)>>, CustCfg(<<>>, <<KV("CustB", "SufB")>>)),
+  With("u.cfg", <<Msg("Root", <<Fld("Str", 1, "string"), Commented(Fld("Cust", 2, "string"), Com1)>>, <<>>)>>, CustCfg(<<KV("Root.Cust", "CustC")>>, <<>>)),
+  With("u.cfg.suffix", <<Msg("Root", <<Fld("Str", 1, "string"), Fld("Cust", 2, "int64"), Rep(Fld("Custs", 3, "string"))>>, <<>>)>>,
+       [CustCfg(<<KV("Root.Cust", "CustC"), KV("Root.Custs", "CustL")>>, <<KV("CustC", "SufC")>>) EXCEPT
+          !.computed = <<"Root.Cust">>, !.sensitive = <<"Root.Custs">>, !.required = <<"Root.Custs">>, !.usfu = TRUE,
+          !.validators = <<[k |-> "Root.Cust", v |-> <<"1">>]>>]),
+  With("u.two", <<Msg("Root", <<NonNull(Custom(Fld("Cust", 1, "string"), "CustT")), Fld("Extra", 2, "bytes")>>, <<>>)>>,
+       CustCfg(<<KV("Root.Extra", "CustX")>>, <<KV("CustT", "SufT")>>)) >>
 =============================================================================
